@@ -87,7 +87,9 @@ func readLoopBetween(ctx context.Context, c *websocket.Conn, m readMode, extra i
 				if o.CleanAfterError == "" && ctx.Err() == nil {
 					for k := 0; k < 3; k++ {
 						n2, e2 := rd.Read(buf)
-						if e2 == io.EOF || e2 == nil {
+						// (only the clean END is judged: a library that lets a caller go on after, say, a temporary
+						// transport error and hands out further true bytes does nothing the property forbids)
+						if e2 == io.EOF {
 							o.CleanAfterError = fmt.Sprintf("call %d after the failed one returned n=%d err=%v", k+1, n2, e2)
 							break
 						}
